@@ -446,6 +446,29 @@ pub fn contexts1() -> Vec<(String, Vec<(String, Value)>)> {
                 m(vec![("k", arr(vec![]))]),
             ),
         ),
+        (
+            "E".into(),
+            mk(
+                Value::from(7u64), Value::from(u64::MAX), 1e16, 9999999999999998.0, "a b", "x", vec![2, 4, 6],
+                vec![Value::from(1e-5), Value::from(0.0001), Value::from(123456789.125), Value::from(5e-324), Value::from(f64::MAX),
+                     Value::from(-1e15), Value::from(0.30000000000000004), Value::from(1e-7)],
+                vec!["x"],
+                vec![row(3, "c", Some("1"), 2.0e10), row(1, "a", Some("2"), 1.0e-10), row(2, "b", Some("1"), f64::NEG_INFINITY)],
+                m(vec![("a", Value::from(-1i64)), ("b", Value::from("B")), ("c", arr(vec![]))]),
+                m(vec![("k", Value::from(1e100))]),
+            ),
+        ),
+        (
+            "F".into(),
+            mk(
+                Value::from(1i128), Value::from(u128::MAX), 4.0, 0.5, "Title case'd words-here and_there", "<>&\"'/", vec![1],
+                vec![Value::from(i128::MIN), Value::from(-1.5), Value::from(u128::MAX), Value::from(0u64)],
+                vec!["same", "same"],
+                vec![row(-1, "neg", None, 0.0), row(i64::MIN, "min", None, -0.0)],
+                m(vec![("a", Value::from(i128::MIN)), ("b", Value::from("")), ("c", arr(vec![Value::from(0u64)]))]),
+                m(vec![("k", Value::none())]),
+            ),
+        ),
     ]
 }
 
@@ -611,7 +634,7 @@ impl<'a> G<'a> {
                     6 => format!("({} | {})", self.e(Ty::Str, d1), self.pick(&["trim", "trim_start", "trim_end"])),
                     7 => format!("({} | {}(pat={}))", self.e(Ty::Str, d1), self.pick(&["trim", "trim_start", "trim_end"]), self.kw_str()),
                     8 => format!("({} | replace(from={}, to={}))", self.e(Ty::Str, d1), self.kw_str(), self.kw_str()),
-                    9 => format!("({} | truncate(length={}{}))", self.e(Ty::Str, d1), self.rng.range(0, 12), if self.rng.chance(1, 2) { ", end=\"..\"" } else { "" }),
+                    9 => format!("({} | truncate(length={}, end={}))", self.e(Ty::Str, d1), self.rng.range(0, 12), self.pick(&["\"..\"", "\"\"", "\">\""])),
                     10 => format!("({} | indent{})", self.e(Ty::Str, d1), self.pick(&["", "(width=2)", "(first=true)", "(blank=true, width=1)", "(width=0)"])),
                     11 => format!("({} | {})", self.e(Ty::Str, d1), self.pick(&["escape_html", "escape_xml", "newlines_to_br", "safe"])),
                     12 => format!("({} | str)", self.any(d1)),
@@ -753,7 +776,7 @@ impl<'a> G<'a> {
             12 => format!("{{% set v = {} %}}{{{{ v }}}}", self.any(2)),
             13 => format!("{{% set acc = {} %}}{{% set acc = acc + {} %}}{{{{ acc }}}}", self.e(Ty::Int, 1), self.num(1)),
             14 => format!("{{% set cap %}}{}{{% endset %}}{{{{ cap | {} }}}}", self.body(d), self.pick(&["length", "upper", "trim", "safe", "wordcount"])),
-            15 => format!("{{% filter {} %}}{}{{% endfilter %}}", self.pick(&["upper", "trim", "title", "replace(from=\"t\", to=\"T\")", "indent(width=1)", "escape_html", "wordcount", "truncate(length=5)"]), self.body(d)),
+            15 => format!("{{% filter {} %}}{}{{% endfilter %}}", self.pick(&["upper", "trim", "title", "replace(from=\"t\", to=\"T\")", "indent(width=1)", "escape_html", "wordcount", "truncate(length=5, end=\"~\")"]), self.body(d)),
             16 => {
                 if self.loops > 0 {
                     let kw = if self.rng.chance(1, 2) { "break" } else { "continue" };
